@@ -75,7 +75,7 @@ impl Scenario for C17Twin {
         }
     }
     fn describe(&self) -> &'static str {
-        "two nodes on scheduler-controlled threads joined by a simulated full-duplex serial line: real Sign -> real SerialSignBus -> port A | port B -> real Odk -> real VirtualSignBus; fragmentation, EINTR, short writes, pipelining and who-runs-next drawn from the tape; port timeouts and pacing on the simulated clock; a twin runs the same operations directly on an identical bus"
+        "two nodes on scheduler-controlled threads joined by a simulated full-duplex serial line: real Sign -> real SerialSignBus -> port A | port B -> real Odk -> real VirtualSignBus; fragmentation, EINTR, short writes, pipelining and who-runs-next drawn from the tape; port timeouts and pacing on the simulated clock; a twin runs the same operations directly on an identical bus; 1-6 operations per run, one run in 48 a long session of 40-70 operations (hundreds of messages) on one bus object"
     }
     fn run(&self, cx: &Cx) -> Result<(), Violation> {
         let nsigns = 1 + cx.draw(2) as usize;
@@ -108,7 +108,12 @@ impl Scenario for C17Twin {
             ty: SignType,
             op: Op,
         }
-        let nops = 1 + cx.draw(6);
+        // now and then a long session on one bus object: dozens of operations, hundreds of messages
+        let long = cx.chance(1, 48);
+        if long {
+            cx.probe("long_session_on_one_serial_bus");
+        }
+        let nops = if long { 40 + cx.draw(30) } else { 1 + cx.draw(6) };
         let mut addr = if cx.chance(1, 12) { gens::other_address(cx, &addrs) } else { *cx.pick(&addrs) };
         let mut ty = gens::sign_type(cx);
         let mut steps: Vec<Step> = Vec::new();
@@ -122,6 +127,21 @@ impl Scenario for C17Twin {
             }
             let op = if k == 0 && cx.chance(3, 4) {
                 Op::Configure
+            } else if long {
+                match cx.draw(8) {
+                    0 => Op::SendPages(gens::pages(cx, ty, 1)),
+                    1 => Op::Show,
+                    2 => Op::LoadNext,
+                    3..=5 => Op::Configure,
+                    6 => Op::ConfigureIfNeeded,
+                    _ => {
+                        if cx.chance(1, 4) {
+                            Op::ShutDown
+                        } else {
+                            Op::Configure
+                        }
+                    }
+                }
             } else {
                 match cx.draw(6) {
                     0 | 1 => Op::SendPages(gens::pages(cx, ty, 3)),
